@@ -104,6 +104,9 @@ def gen_reg(tier, seed):
         for a, b in itertools.product(specs, specs):
             for order in (['A', 'B'], ['B', 'A']):
                 yield {'variant': vi, 'A': a, 'B': b, 'order': order}
+        for a, b in ((None, 'HIGH'), ('LOW', 'HIGH'), ('HIGH', None), (None, 35), (35, 1000)):
+            for order in (['A', 'B'], ['B', 'A']):
+                yield {'variant': vi, 'A': a, 'B': b, 'order': order, 'same_name': True}
         # check_dataset may answer any integer, not only the three named levels
         ints = [-5, 0, 9, 10, 11, 29, 30, 31, 35, 1000]
         for a, b in itertools.product(ints, ints):
@@ -119,7 +122,9 @@ def test_reg(inp):
     reg = ConventionRegistry()
     val = {None: None, 'LOW': Specificity.LOW, 'HIGH': Specificity.HIGH}
     val.update({k: k for k in (inp['A'], inp['B']) if isinstance(k, int)})
-    toys = {'A': make_toy('ToyA', val[inp['A']]), 'B': make_toy('ToyB', val[inp['B']])}
+    # same_name: two different classes with the same module and qualified name (products of one class factory, a re-run notebook cell)
+    names = ('Toy', 'Toy') if inp.get('same_name') else ('ToyA', 'ToyB')
+    toys = {'A': make_toy(names[0], val[inp['A']]), 'B': make_toy(names[1], val[inp['B']])}
     before = reg.guess_convention(ds)
     if (before.__name__ if before else None) != want_builtin:
         return f'fresh registry detects {before}'
@@ -127,17 +132,18 @@ def test_reg(inp):
         reg.add_convention(toys[k])
     got = reg.guess_convention(ds)
     builtin_spec = {'CFGrid1D': 10, 'CFGrid2D': 10, 'ShocSimple': 30, 'ShocStandard': 30, 'UGrid': 30}.get(want_builtin)
-    cands = [('Toy' + k, int(val[inp[k]])) for k in inp['order'] if val[inp[k]] is not None]
+    cands = [(toys[k], int(val[inp[k]])) for k in inp['order'] if val[inp[k]] is not None]
     if builtin_spec is not None:
         cands.append((want_builtin, builtin_spec))
     want = None
     for n, s in cands:
         if want is None or s > want[1]:
             want = (n, s)
-    wname = want[0] if want else None
-    gname = got.__name__ if got is not None else None
-    if gname != wname:
-        return f'registered {inp["order"]} with A={inp["A"]}, B={inp["B"]} on {name}: chose {gname}, expected {wname}'
+    wcls = want[0] if want else None
+    same = (got is wcls) if not isinstance(wcls, str) else (got is not None and got.__name__ == wcls)
+    if not same:
+        label = lambda x: None if x is None else (x if isinstance(x, str) else next((f'toy {k}' for k, t in toys.items() if t is x), getattr(x, '__name__', x)))
+        return f'registered {inp["order"]} with A={inp["A"]}, B={inp["B"]} on {name}: chose {label(got)}, expected {label(wcls)}'
     return None
 
 
